@@ -85,6 +85,7 @@ func TestC01(t *testing.T) {
 	p.Alt, p.PAlt = massExitProfile(), 30
 	p.Inject = true
 	p.Alt.Inject = true
+	p.W["deployp"], p.W["callp"] = 5, 12
 	runCheck(t, "C01", p, func(src Source, st *Stats) *Outcome {
 		c, err := RunPrimary("C01", src, nil)
 		out := &Outcome{Case: c}
@@ -114,7 +115,21 @@ func TestC01(t *testing.T) {
 					return injectionHooks(s, b, func(int, int32) { st.label("replica_B_accepted_mempool_checks", 1) }, func(*PanicError) {})
 				}
 			}
-			sb, resB, rerr := runReplicaPre(c.Hist, pre, hooks, nil)
+			// ... and so is the life of the process: replica B is stopped and reopened after some of the blocks
+			// (chosen by the block index alone), A never
+			var after func(s *Sim, bi int, b *Block, br *BlockResult) error
+			if r == 0 {
+				after = func(s *Sim, bi int, b *Block, br *BlockResult) error {
+					if bi >= 1 && bi < len(c.Hist.Blocks)-1 && sha([]byte{byte(bi), byte(len(c.Hist.Blocks))})[0]%5 == 0 {
+						st.label("replica_B_restarts", 1)
+						if _, perr := s.Restart(); perr != nil {
+							return perr
+						}
+					}
+					return nil
+				}
+			}
+			sb, resB, rerr := runReplicaPre(c.Hist, pre, hooks, after)
 			if rerr != nil {
 				sb.Close(true)
 				out.Err = violationf("replica %c failed where replica A did not: %v", 'B'+r, rerr)
